@@ -1,6 +1,70 @@
-From Coq Require Import List String.
-From GinV Require Import Model.Values Model.Gin.
+(* C16 — a failed parse applies exactly the preceding statements; errors say where.
+   Statements only; proofs in Proofs/StmtProofs.v. *)
+From Coq Require Import List String ZArith Bool Arith.
+From GinV Require Import Lib.Out Lib.PyStr Model.SelectorMap Model.Parser Model.Stmt Model.StmtSpec Proofs.StmtProofs.
 Import ListNotations.
-Theorem C16_placeholder : prefixes [1;2] = [[]; [1]; [1;2]].
-Proof. reflexivity. Qed.
-Print Assumptions C16_placeholder.
+Open Scope string_scope.
+Open Scope list_scope.
+
+(* THE streaming theorem (include-free configs): parsing and applying statement by statement gives the same
+   final state and outcome as first parsing the whole token stream into groups and then consuming the groups in
+   order, stopping at the first failure — for every fault position and kind *)
+Theorem C16_stream_eq : forall fuel env sk fname o pending ts s im ic gs pe,
+  parse_groups fuel o pending ts = (gs, pe) -> no_includes gs ->
+  parse_tokens fuel env sk fname o pending ts s im ic =
+  (let '(s1, r) := consume env sk fname no_inc gs s im ic in
+   match r with
+   | SErr e => (s1, SErr e)
+   | SOk (im', ic') =>
+       if Nat.eqb (List.length gs) fuel then (s1, SErr (SEOther "RecursionError" []))
+       else match pe with Some e => (s1, SErr (perr_to_serr fname e))
+                        | None => (add_imports im' s1, SOk (im', ic')) end
+   end).
+Proof. exact C16_stream_eq_gen. Qed.
+
+(* after a failure at group i the state is that of consuming the first i groups and then the successful prefix of group i *)
+Theorem C16_failed_parse_is_prefix : forall env sk fname gs s im ic s1 e,
+  consume env sk fname no_inc gs s im ic = (s1, SErr e) ->
+  exists i g, nth_error gs i = Some g /\
+    exists s0 im0 ic0, consume env sk fname no_inc (firstn i gs) s im ic = (s0, SOk (im0, ic0)) /\
+      ((resolve_group s0 sk fname g = SErr e /\ s1 = s0) \/
+       exists g', resolve_group s0 sk fname g = SOk g' /\ apply_stmts env sk fname no_inc g' s0 im0 ic0 = (s1, SErr e)).
+Proof. exact C16_failed_parse_is_prefix. Qed.
+
+(* inside a group: the statements before the failing one have been applied, the failing one and the rest not *)
+Theorem C16_group_prefix : forall env sk fname inc stmts s im ic s' e,
+  apply_stmts env sk fname inc stmts s im ic = (s', SErr e) ->
+  exists k st s_mid im' ic', nth_error stmts k = Some st /\
+    apply_stmts env sk fname inc (firstn k stmts) s im ic = (s_mid, SOk (im', ic')) /\
+    apply_stmts env sk fname inc [st] s_mid im' ic' = (s', SErr e).
+Proof. exact apply_stmts_prefix. Qed.
+
+(* a failed parse records no imports and touches neither lock, registry nor constants *)
+Theorem C16_error_leaves_flags : forall fuel env sk fname o pending ts s im ic s' e gs pe,
+  parse_groups fuel o pending ts = (gs, pe) -> no_includes gs ->
+  parse_tokens fuel env sk fname o pending ts s im ic = (s', SErr e) ->
+  t_imports s' = t_imports s /\ t_locked s' = t_locked s /\ t_reg s' = t_reg s /\ t_consts s' = t_consts s.
+Proof. exact C16_error_leaves_flags. Qed.
+
+(* provenance: a successful bind records exactly the statement's own location for that parameter and leaves
+   every other entry of store and provenance alone *)
+Theorem C16_provenance : forall s sc sel arg v l s', bind s sc sel arg v l = SOk s' ->
+  exists k c, sm_get_match (to_key sel) (t_reg s) = MOne k (Some c) /\
+    prov_at s' (sc, cs_sel c) arg = Some l /\ store_at s' (sc, cs_sel c) arg = Some v /\
+    (forall ck' arg', (ck', arg') <> ((sc, cs_sel c), arg) ->
+       prov_at s' ck' arg' = prov_at s ck' arg' /\ store_at s' ck' arg' = store_at s ck' arg').
+Proof. exact bind_records_location. Qed.
+
+(* the location chain: each enclosing level appends its (file, line), innermost first; SyntaxErrors pass untouched *)
+Theorem C16_chain_append : forall A l c ch, @with_loc A l (SErr (SEOther c ch)) = SErr (SEOther c (ch ++ [l])).
+Proof. exact with_loc_chain. Qed.
+Theorem C16_syntax_untouched : forall A l f n, @with_loc A l (SErr (SESyntax f n)) = SErr (SESyntax f n).
+Proof. exact with_loc_syntax. Qed.
+
+Print Assumptions C16_stream_eq.
+Print Assumptions C16_failed_parse_is_prefix.
+Print Assumptions C16_group_prefix.
+Print Assumptions C16_error_leaves_flags.
+Print Assumptions C16_provenance.
+Print Assumptions C16_chain_append.
+Print Assumptions C16_syntax_untouched.
